@@ -31,7 +31,10 @@ import (
 //         Z:<n>              the attacker sends a well-formed QUERY whose text is n bytes long
 //         T:<silent|partial|garbage>   the proxy serves its clients over TLS; the attacker connects and sends nothing / the first
 //                            bytes of a TLS record / bytes that are not TLS, and stays connected
+//         U:<ms>             the attacker sends USE for a keyspace whose USE the backend answers only after <ms> ms (0: never);
+//                            while that is pending the canary must still be answered promptly
 //         W:<n>              the attacker pipelines n forwarded queries with large answers, never reads one, and disconnects
+//         H:<n>              the same, but the attacker stays connected (still not reading) while the canary is checked
 //         B:<kind>[:<arg>]   the attacker sends well-formed requests; the backend answers them in a hostile way
 //         L:<kind>           the backend answers the proxy's own system.local / system.peers queries badly and
 //                            the control connection is dropped so that the proxy has to ask again
@@ -193,6 +196,47 @@ func runHostileChild(op string) (out string) {
 		}
 		time.Sleep(150 * time.Millisecond)
 		att = []string{"held"}
+	case strings.HasPrefix(attack[0], "U:"):
+		ms, _ := strconv.Atoi(attack[0][2:])
+		d := time.Duration(ms) * time.Millisecond
+		if ms == 0 {
+			d = time.Hour
+		}
+		env.Cluster.SetSlowKeyspace("slowks", d)
+		acl, derr := env.Dial(cv, "")
+		if derr != nil {
+			att = []string{"dial-error"}
+			break
+		}
+		defer acl.Close()
+		_ = acl.Send(1, &message.Query{Query: "USE slowks", Options: &message.QueryOptions{Consistency: primitive.ConsistencyLevelOne}})
+		time.Sleep(100 * time.Millisecond)
+		t0 := time.Now()
+		_ = canary.Send(90, &message.Query{Query: canaryQuery, Options: &message.QueryOptions{Consistency: primitive.ConsistencyLevelOne}})
+		_, rerr := canary.Recv(3 * time.Second)
+		if lat := time.Since(t0); rerr != nil || lat > 800*time.Millisecond {
+			return fmt.Sprintf("att=use-pending canary=stalled-%dms", lat.Milliseconds())
+		}
+		att = []string{"use-pending"}
+	case strings.HasPrefix(attack[0], "H:"):
+		// the client that does not read stays connected while the canary is checked
+		n, _ := strconv.Atoi(attack[0][2:])
+		cl, derr := env.Dial(cv, "")
+		if derr != nil {
+			att = []string{"dial-error"}
+			break
+		}
+		defer cl.Close()
+		sent := 0
+		for i := 0; i < n; i++ {
+			b, err := cl.Encode(int16(i%30000+1), &message.Query{Query: "SELECT v FROM ks.attackbig", Options: &message.QueryOptions{Consistency: primitive.ConsistencyLevelOne}}, nil)
+			if err != nil || cl.WriteBytes(b) != nil {
+				break
+			}
+			sent++
+		}
+		time.Sleep(500 * time.Millisecond)
+		att = []string{fmt.Sprintf("sent-%d", sent), "held"}
 	case strings.HasPrefix(attack[0], "W:"):
 		n, _ := strconv.Atoi(attack[0][2:])
 		att = slowReaderAttack(env, cv, n)
@@ -614,7 +658,7 @@ func genHostile(e *emitter, r *rng.R, n int, tier string) {
 	for _, z := range []int{1 << 16, 1 << 20, 16<<20 - 64} {
 		ops = append(ops, fmt.Sprintf("M:4 Z:%d", z))
 	}
-	ops = append(ops, "M:4 W:3000", "M:4 W:6000", "M:4 T:silent", "M:4 T:partial", "M:4 T:garbage")
+	ops = append(ops, "M:4 U:1500", "M:4 U:0", "M:66 U:1200", "M:4 H:6000", "M:4 W:3000", "M:4 W:6000", "M:4 T:silent", "M:4 T:partial", "M:4 T:garbage")
 	// 3. hostile backends
 	for _, k := range []string{"wrongstream:1000", "wrongstream:-1", "wrongstream:1", "dup", "shorterr:0", "shorterr:1", "shorterr:3", "shorterr:4", "shorterr:5", "shorterr:7",
 		"errbody:00002500", "errbody:0000250000", "errbody:000025000000", "errbody:0000250000000010abab", "errbody:00001000000000", "errbody:000011000000", "errbody:0000120000000001", "errbody:00001300",
